@@ -112,6 +112,16 @@ Theorem C01_array_push_term :
     end.
 Proof. exact apush_term. Qed.
 
+(* TERMINATION of mpt_array_push: every round of its `while (1)` loop consumes at least one byte or
+   enlarges the buffer, and an enlarged buffer has room for the encoder -- at most two rounds per
+   byte; the model's round budget (4 * len + 64) is never exhausted, for data of any length and
+   for the terminating call: the result is never EFault *)
+Theorem C01_array_push_terminates :
+  forall v pre c0 st buf cap d, variant_ok v -> 3 <= maxlen v ->
+    enc_inv v pre c0 st buf -> arr_ok st cap ->
+    fst (fst (fst (apush (enc_call v) st buf cap d))) <> EFault.
+Proof. exact apush_total. Qed.
+
 (* PROGRESS: a data call that reports success has consumed at least one byte (block limit >= 3, as in
    all four framings) — mpt_array_push's `while (1)` loop continues only after real progress or
    after enlarging the buffer, it cannot spin on a call that returns 0 *)
@@ -172,3 +182,4 @@ Print Assumptions C01_text_decoder_delivers.
 Print Assumptions C01_array_push_data.
 Print Assumptions C01_array_push_term.
 Print Assumptions C01_encoder_progress.
+Print Assumptions C01_array_push_terminates.
